@@ -51,6 +51,7 @@ class World:
         self.groups = {}  # group -> {"proj": tag, "sp": dict}
         self._ng = 0
         self.ncalls = 0
+        self.zombies = []
         self.lazy_copy = {}  # slot -> the shallow copy linking it to its group was made before the state point object existed
 
     # ------------------------------------------------------------------ helpers
@@ -143,6 +144,7 @@ class World:
         from signac.errors import DestinationExistsError
 
         self.ncalls += 1
+        self.zombies = []
         name = op[0]
         if name == "open":
             _, slot, i = op
@@ -248,8 +250,14 @@ class World:
             m = self._ensure_model_job(slot)
             m["doc"], m["files"] = {}, {}
         elif name == "remove":
+            shared_doc = getattr(job, "_document", None)
             run(job.remove)
             self.jobs[proj].pop(jid, None)
+            # shallow copies of the removing handle: no further operations are offered through them, but a document
+            # object they already hold must not keep showing the removed job's data
+            # (only the document object the removing handle itself held and shares with its copies is judged)
+            self.zombies = [(x, self.slots[x]) for x in self.slots if self.group_of[x] == grp and x != slot
+                            and shared_doc is not None and getattr(self.slots[x], "_document", None) is shared_doc]
             # per-handle fields (_directory_known, document handle) of every OTHER handle on this job are stale
             # now, shallow copies included: only re-keys are promised to propagate.  They are not offered any more.
             self._invalidate_others(grp, proj, jid)
@@ -363,6 +371,16 @@ class World:
     def check_handles(self):
         """Every current handle must describe its job as the model does (shallow copies follow re-keys)."""
         out = []
+        for slot, job in self.zombies:
+            d = getattr(job, "_document", None)
+            if d is not None:
+                try:
+                    seen = canon.plain(d())
+                except Exception as e:  # noqa
+                    seen = f"{type(e).__name__}: {e}"
+                if seen != {}:
+                    out.append(("removed-job-document-still-visible", f"after remove() through a sibling, the document object "
+                                f"held by shallow copy {slot} still reads {seen!r}", {}))
         for slot in sorted(self.slots):
             job = self.slots[slot]
             g = self.g(slot)
